@@ -56,6 +56,9 @@ pub enum FaultKind {
     MissingParam,
     /// a valid call whose `oneway` member is a string
     BadFlag,
+    /// a complete, valid call directly followed by more bytes inside the same frame (a second
+    /// document or a stray character): the frame as a whole is not a JSON document
+    TrailingAfterCall,
     /// a generated undecodable frame of `len` bytes (never a call): depending on `seed` byte soup
     /// that does not start a JSON document, a call cut off inside a long string parameter, or a
     /// JSON array holding one long string; the content mixes ASCII with 2-, 3- and 4-byte UTF-8
@@ -96,7 +99,7 @@ pub fn soup_content(seed: u16, len: usize, allow_invalid: bool) -> Vec<u8> {
     out
 }
 
-pub const FAULT_KINDS: [FaultKind; 7] = [
+pub const FAULT_KINDS: [FaultKind; 8] = [
     FaultKind::Garbage,
     FaultKind::BadUtf8,
     FaultKind::WrongShape,
@@ -104,6 +107,7 @@ pub const FAULT_KINDS: [FaultKind; 7] = [
     FaultKind::WrongTypes,
     FaultKind::MissingParam,
     FaultKind::BadFlag,
+    FaultKind::TrailingAfterCall,
 ];
 
 #[derive(Debug, Clone, PartialEq, Eq, Hash, Serialize, Deserialize)]
@@ -206,6 +210,7 @@ impl FrameSpec {
                 FaultKind::WrongTypes => br#"{"method":"org.example.Echo","parameters":{"c":"one","id":[],"pad":3}}"#.to_vec(),
                 FaultKind::MissingParam => format!(r#"{{"method":"org.example.Echo","parameters":{{"c":{c}}}}}"#).into_bytes(),
                 FaultKind::BadFlag => format!(r#"{{"method":"org.example.Noop","parameters":{{"c":{c},"id":1}},"oneway":"yes"}}"#).into_bytes(),
+                FaultKind::TrailingAfterCall => format!(r#"{{"method":"org.example.Echo","parameters":{{"c":{c},"id":77,"pad":"t"}}}}{{"method":"org.example.Noop","parameters":{{"c":{c},"id":78}}}}"#).into_bytes(),
                 FaultKind::Soup { seed, len } => {
                     let len = len as usize;
                     match seed % 3 {
